@@ -50,7 +50,7 @@ def exec_io(c):
             part = np.asarray(img[:, :, :, :])
             if full.shape != tuple(img.shape) or not np.array_equal(full, part):
                 raise ValueError("get_full / shape / indexing disagree")
-            if lib.vid(c) % 3 == 1:
+            if lib.vid(c) % 2 == 0:
                 # the caller thresholds the array it was given in place; the file on disk is what it was: reading it again gives the same stack
                 first = np.array(full, copy=True)
                 try:
